@@ -103,6 +103,27 @@ func init() {
 	ack.noMonitor = true // the reference model does not cover grants that wait for an acknowledgement (C11's harness does)
 	addKind("ackcore", ack, map[string]int{"C03": 3})
 
+	// hugeterms: timeouts and expiries of hours, days and weeks (seconds up to 65535, minutes up to
+	// 65535): nothing may end early; at the end the drain client cancels and releases what is left
+	huge := base
+	huge.profile, huge.shortDrain, huge.noText, huge.pWait = "huge-terms", true, true, 0
+	huge.timeouts = []uint16{0, 2, 5, 300, 4000, 65535}
+	huge.expireds = []uint16{2, 5, 300, 4000, 65535}
+	huge.pMinute, huge.pMs = 350, 20
+	huge.minuteVals = []uint16{1, 2, 60, 1092, 1093, 1100, 12015, 65535}
+	huge.nOps, huge.maxDelayMs = [2]int{5, 20}, 2500
+	huge.twoDbs = false
+	addKind("hugeterms", huge, map[string]int{"C05": 3, "C06": 3})
+
+	// deepreentry: see genDeepReentry
+	kinds["deepreentry"] = &kindFn{gen: genDeepReentry, run: runCore}
+	for p, w := range map[string]int{"C02": 2, "C17": 1} {
+		propKinds[p] = append(propKinds[p], struct {
+			Kind   string
+			Weight int
+		}{"deepreentry", w})
+	}
+
 	// msheavy: millisecond timeouts and expiries
 	msk := base
 	msk.profile, msk.pMs, msk.maxDelayMs = "milliseconds", 500, 300
